@@ -32,6 +32,7 @@ def jobs(tier):
         mk('C05', 'par/await_two_later', S.par_await_two_later(), witnesses=W),
         mk('C05', 'child/await/ffG/k0', S.child('await', k=0, child_ff=True), witnesses=W),
         mk('C05', 'timed_child/depth4', _timed_child(), witnesses=W),
+        mk('C05', 'small_history_tree/4', S.small_history_tree(4), witnesses=W),
         mk('C05', 'child/await/k0/decoys', dict(S.child('await', k=0), decoys={'A': 2}), witnesses=W),
     ]
     if tier == 'thorough':
